@@ -345,7 +345,23 @@ def run(check):
           floop = [f_ for f_ in walk_no_nested(add.node, include_self=False) if isinstance(f_, ast.For) and any(x is w for x in ast.walk(f_))]
           defs_in = [d for d in walk_no_nested(add.node, include_self=False) if isinstance(d, ast.Assign) and
                      any(isinstance(tg, ast.Name) and tg.id == c.id for tg in d.targets)]
-          all_positions = bool(floop) and bool(defs_in) and all(any(x is d for x in ast.walk(floop[-1])) for d in defs_in)
+          recomputed = bool(floop) and bool(defs_in) and all(any(x is d for x in ast.walk(floop[-1])) for d in defs_in)
+          # ... or computed once before the replica loop and kept in step: every insertion into the ring inside the loop is
+          # accompanied, in the same iteration, by <collection>.add(<the inserted position>)
+          maintained = False
+          if floop and defs_in and not recomputed and len(defs_in) == 1:
+            lp_ = floop[-1]
+            inserts = [x for x in lp_.body if isinstance(x, ast.Expr) and isinstance(x.value, ast.Call) and
+                       (dotted(x.value.func) or '').startswith('bisect.insort') and len(x.value.args) == 2]
+            adds_ = [x for x in lp_.body if isinstance(x, ast.Expr) and isinstance(x.value, ast.Call) and
+                     isinstance(x.value.func, ast.Attribute) and x.value.func.attr == 'add' and dotted(x.value.func.value) == c.id and
+                     len(x.value.args) == 1]
+            all_ins = [x for x in ast.walk(add.node) if isinstance(x, ast.Call) and (dotted(x.func) or '').startswith('bisect.insort')]
+            if len(inserts) == 1 and len(adds_) == 1 and len(all_ins) == 1:
+              ent_t = vn.term(inserts[0].value.args[1], inserts[0])
+              pos_t = ent_t[1] if isinstance(ent_t, tuple) and ent_t[0] == 'tuple' and len(ent_t) == 3 else None
+              maintained = pos_t is not None and vn.term(adds_[0].value.args[0], adds_[0]) == pos_t and pos_t == vn.term(t.left, inserts[0])
+          all_positions = recomputed or maintained
         body_ok = len(w.body) == 1 and (
           (isinstance(w.body[0], ast.AugAssign) and isinstance(w.body[0].op, ast.Add) and dotted(w.body[0].target) == pos and
            isinstance(w.body[0].value, ast.Constant) and w.body[0].value.value == 1) or
